@@ -13,6 +13,18 @@ RENAME_POOL = ["a", "b", "ab", "A", "Ab", "aB", "x y", " lead", "trail ", "", "\
                "a\0", "\n", "'", "%s", "Alpha", "alpha", "ALPHA", "é", "é", "0", "-1", "::", "#"]
 
 
+# attributes of other tools on variants / on the enum (C11: "arbitrary foreign attributes and doc comments"): path-only, name = value,
+# lists with one / several / nested / non-meta arguments, tool attributes, doc comments of every form
+VARIANT_FOREIGN_ATTRS = ["#[allow(dead_code)]", "/// doc comment", "#[doc = \"x\"]", "#[cfg_attr(all(), allow(unused))]", "#[deprecated]",
+                         "#[allow(dead_code, unused)]", "#[deprecated(since = \"1.0.0\", note = \"use another one\")]",
+                         "#[doc(alias = \"a\", alias = \"b\")]", "#[cfg_attr(all(), allow(dead_code), doc = \"two\")]", "#[cfg(all())]",
+                         "/** block doc */", "#[doc = r\"raw\"]", "#[allow(clippy::all, unused)]", "#[rustfmt::skip]", "#[cfg(not(any()))]",
+                         "#[allow()]", "#[doc(alias(\"p\", \"q\"))]"]
+ENUM_FOREIGN_ATTRS = ["#[allow(dead_code)]", "/// An enum.", "#[doc(hidden)]", "#[cfg_attr(all(), allow(unused))]", "#[allow(dead_code, unused)]",
+                      "#[deprecated(since = \"1.0.0\", note = \"n\")]", "#[doc(alias = \"a\", alias = \"b\")]", "#[must_use = \"m\"]", "#[non_exhaustive]",
+                      "#[rustfmt::skip]", "/** block doc */", "#[cfg_attr(all(), allow(dead_code), doc = \"two\")]", "#[allow(clippy::all, unused)]"]
+
+
 def h(s, n=8):
     return hashlib.sha256(s.encode()).hexdigest()[:n]
 
@@ -627,13 +639,13 @@ class Plan:
                     w = dict(v)
                     w["lit"] = spell(v["real"], r, s2, prev)
                     if rng.random() < 0.3:
-                        w["attrs"] = [rng.choice(["#[allow(dead_code)]", "/// doc comment", "#[doc = \"x\"]", "#[cfg_attr(all(), allow(unused))]", "#[deprecated]"])]
+                        w["attrs"] = [rng.choice(VARIANT_FOREIGN_ATTRS)]
                     prev = v["real"]
                     vs.append(w)
                 c = self.new_case(r, vs, dict(cfg[1]), script, f"spell:{st}:{r}")
                 if rng.random() < 0.3:
                     c["cfg"] = dict(c["cfg"])
-                    c["cfg"]["extra_attrs"] = [rng.choice(["#[allow(dead_code)]", "/// An enum.", "#[doc(hidden)]", "#[cfg_attr(all(), allow(unused))]"])]
+                    c["cfg"]["extra_attrs"] = [rng.choice(ENUM_FOREIGN_ATTRS)]
                 cases.append(c)
             self.add_group("C11", cases, "spellings")
 
@@ -658,7 +670,7 @@ class Plan:
     def hostile_enum_names(self, names=("Some", "None", "Ok", "Err", "Option", "Result", "Iterator", "IntoIterator", "DoubleEndedIterator",
                                         "ExactSizeIterator", "FusedIterator", "From", "Into", "TryFrom", "FromStr", "Copy", "Clone", "Debug",
                                         "Display", "Formatter", "Error", "Sized", "Default", "Self_", "RangeInclusive", "MaybeUninit", "Map",
-                                        "Copied", "IntoIter", "Iter", "Vec", "String", "Box", "r#async", "r#type")):
+                                        "Copied", "IntoIter", "Iter", "Vec", "String", "Box", "r#async", "r#type", "Größe", "列挙")):
         rng = self.rng
         for r, reals in (("i8", [-3, 5, 6]), ("u16", [0, 1, 2])):
             gapless = runs_of(reals) == 1
@@ -749,8 +761,12 @@ class Plan:
                 ren["iter"]["struct_name"] = "MyIter"
                 ren["names"]["struct_name"] = "MyNames"
                 some = {f: ({"name": f"x{f.lower()}"} if i % 2 else {"vis": "pub"}) for i, f in enumerate(render.DEFAULT_NAME)}
+                # identifiers are Unicode (XID), not ASCII
+                uni = {f: {"name": f"größe_{f.lower()}" if f not in ("MIN", "MAX") else f"GRÖSSE_{f}"} for f in render.DEFAULT_NAME}
+                uni["iter"]["struct_name"] = "GrößenIter"
+                uni["names"]["struct_name"] = "名前たち"
                 variants = [cfg]
-                for extra in (ren, some):
+                for extra in (ren, some, uni):
                     feats = [(f, dict(pr, **extra.get(f, {}))) for f, pr in cfg["feats"]]
                     variants.append({"feats": feats, "split": cfg.get("split", "one")})
                 cases = [self.new_case(r, vs, c, script, f"ren:{lab}:{i}") for i, c in enumerate(variants)]
@@ -830,6 +846,15 @@ class Plan:
             script = make_script(vs, r, probes, rng, level="light", str_cap=40, pairs_cap=6)
             cases = [self.new_case(r, vs, cfg, script, f"rawid:{lab}") for lab, cfg in kappa_list(runs_of(reals) == 1)
                      if lab in ("match_nab", "table_table", "auto", "inline", "mixed1", "mixed2")]
+            self.add_group("C09", cases, "names_fixed")
+        for r, reals in (("u8", [0, 1, 2, 3, 4]), ("i16", [-7, -6, 1, 5, 6])):
+            ids = ["Äpfel", "ßeta", "Plain", "Ωmega", "日本"]
+            vs = [{"ident": ids[i], "real": reals[i], "lit": str(reals[i]), "rename": None} for i in (2, 0, 4, 1, 3)]
+            p = prim.Proj(r)
+            probes = sorted({p.to_model(x + d) for x in reals for d in (-1, 0, 1) if prim.tmin(r) <= x + d <= prim.tmax(r)})
+            script = make_script(vs, r, probes, rng, level="light", str_cap=40, pairs_cap=6)
+            cases = [self.new_case(r, vs, cfg, script, f"uniid:{lab}") for lab, cfg in kappa_list(runs_of(reals) == 1)
+                     if lab in ("match_nab", "table_table", "auto", "inline")]
             self.add_group("C09", cases, "names_fixed")
 
     # -- F2: discriminants that are far apart by (almost) a power of two: a span computed in a narrower type aliases
